@@ -1,6 +1,11 @@
 package rv
 
 import (
+	"sort"
+	"regexp"
+	"go/types"
+	"go/constant"
+	"go/ast"
 	"go/token"
 	"strings"
 
@@ -12,11 +17,11 @@ const probPkg = "rueidis/rueidisprob"
 func init() {
 	Registry["C35"] = RuleDef{Module: "rueidisprob", Run: func(r *Report) { runProb(r, "C35", "bloomFilter", "R35") },
 		Technique:   "bounds prover (lower bounds of the filter parameters through one level of callee summaries), who-may-write rule on the parameter fields, sibling agreement of the add and query paths",
-		Explanation: "Decides for rueidisprob's Bloom filter (R35a) that the number of hash functions and the bit size stored by every constructor are proved >= 1 on every path (a rounding to 0 hash functions makes Add set nothing and Exists answer false), and that these fields are written nowhere else; (R35b) that the add and the query path derive their bit indexes from the same indexes method, which reads the same size and hash-count fields and reduces every index modulo that size, and that both pass the hash count string the constructor derived from the very value stored as the hash count; (R35c) that ExistsMulti allocates one answer per input key and fills answers at the response's own position.",
+		Explanation: "(R35d) scripts are built with a constructor that matches their text: read-only scripts do not write, no retryable script contains a non-idempotent command. Decides for rueidisprob's Bloom filter (R35a) that the number of hash functions and the bit size stored by every constructor are proved >= 1 on every path (a rounding to 0 hash functions makes Add set nothing and Exists answer false), and that these fields are written nowhere else; (R35b) that the add and the query path derive their bit indexes from the same indexes method, which reads the same size and hash-count fields and reduces every index modulo that size, and that both pass the hash count string the constructor derived from the very value stored as the hash count; (R35c) that ExistsMulti allocates one answer per input key and fills answers at the response's own position.",
 		NotDecided:  "the server-side Lua scripts and BITFIELD semantics; hash quality; Count monotonicity (server-side counter)."}
 	Registry["C36"] = RuleDef{Module: "rueidisprob", Run: func(r *Report) { runProb(r, "C36", "countingBloomFilter", "R36") },
 		Technique:   "bounds prover (parameter lower bounds, divisor >= 1), who-may-write rule, sibling agreement of add / remove / query paths",
-		Explanation: "Decides for the counting Bloom filter (R36a) that the hash count and size stored by the constructor are proved >= 1 and written nowhere else; (R36b) that add, remove, query and min-count paths all obtain their field indexes from the same indexes method reading the same fields, reduced modulo the size; (R36c) that every grouping of per-hash replies by `(i+1) % hashIterations` divides by a value proved >= 1 (field invariant from R36a), so the grouping can neither panic nor lose groups.",
+		Explanation: "(R36d) the increment/decrement scripts are not built retryable (an automatic re-send after a lost reply would count twice) and read-only scripts do not write. Decides for the counting Bloom filter (R36a) that the hash count and size stored by the constructor are proved >= 1 and written nowhere else; (R36b) that add, remove, query and min-count paths all obtain their field indexes from the same indexes method reading the same fields, reduced modulo the size; (R36c) that every grouping of per-hash replies by `(i+1) % hashIterations` divides by a value proved >= 1 (field invariant from R36a), so the grouping can neither panic nor lose groups.",
 		NotDecided:  "the server-side scripts (rollback of a removal that would drive a counter negative); multiplicity arithmetic on the server."}
 }
 
@@ -27,6 +32,8 @@ func runProb(r *Report, prop, typ, rp string) {
 	r.Anchor(rp+"a", "methods of "+T, len(fns) >= 5)
 	ctorName := map[string]string{"bloomFilter": "NewBloomFilter", "countingBloomFilter": "NewCountingBloomFilter"}[typ]
 	ctor := r.FnAnchor(rp+"a", probPkg+"."+ctorName)
+	scriptFile := map[string]string{"bloomFilter": "/bloomfilter.go", "countingBloomFilter": "/countingbloomfilter.go"}[typ]
+	r.Anchor(rp+"d", "script constructors in "+scriptFile, scriptConstructorRule(r, rp+"d", "rueidis/rueidisprob", scriptFile) >= 2)
 
 	// Ra: stored parameters are >= 1, single writer
 	for _, f := range []string{"hashIterations", "size"} {
@@ -215,4 +222,72 @@ func provedAtLeastOne(p *Prog, fn *ssa.Function, b *ssa.BasicBlock, v ssa.Value,
 		}
 	}
 	return false, "no guard, clamp or max establishes a positive value: " + Desc(v)
+}
+
+// scriptConstructorRule: a Lua script that is built retryable (its EVALSHA is re-sent after a
+// lost connection) must be idempotent, and one built read-only must not write. The command names
+// are read from the script's constant text (redis.call('CMD', ...)); this is a lint over the
+// embedded source, not an analysis of Lua semantics.
+func scriptConstructorRule(r *Report, rule, pkgShort, onlyFile string) int {
+	pkg := r.P.Pkg(pkgShort)
+	if pkg == nil {
+		r.Anchor(rule, "package "+pkgShort, false)
+		return 0
+	}
+	nonIdem := map[string]bool{"INCR": true, "INCRBY": true, "INCRBYFLOAT": true, "DECR": true, "DECRBY": true, "HINCRBY": true, "HINCRBYFLOAT": true,
+		"APPEND": true, "LPUSH": true, "RPUSH": true, "LPOP": true, "RPOP": true, "SPOP": true, "ZINCRBY": true, "XADD": true, "SETRANGE": true}
+	readOnly := map[string]bool{"GET": true, "MGET": true, "BITFIELD_RO": true, "HGET": true, "HMGET": true, "HGETALL": true, "EXISTS": true, "TIME": true,
+		"TTL": true, "PTTL": true, "STRLEN": true, "GETBIT": true, "BITCOUNT": true, "HEXISTS": true, "HLEN": true}
+	callRe := regexp.MustCompile(`redis\.p?call\(\s*['"]([A-Za-z_]+)['"]`)
+	n := 0
+	for _, f := range pkg.Syntax {
+		fname := r.P.Fset.Position(f.Pos()).Filename
+		if onlyFile != "" && !strings.HasSuffix(fname, onlyFile) {
+			continue
+		}
+		ast.Inspect(f, func(nd ast.Node) bool {
+			ce, ok := nd.(*ast.CallExpr)
+			if !ok || len(ce.Args) == 0 {
+				return true
+			}
+			sel, ok := ce.Fun.(*ast.SelectorExpr)
+			if !ok || !strings.HasPrefix(sel.Sel.Name, "NewLuaScript") {
+				return true
+			}
+			tv, ok := pkg.TypesInfo.Types[ce.Args[0]]
+			if !ok || tv.Value == nil || tv.Value.Kind() != constant.String {
+				return true
+			}
+			n++
+			src := constant.StringVal(tv.Value)
+			var cmds []string
+			for _, m := range callRe.FindAllStringSubmatch(src, -1) {
+				cmds = append(cmds, strings.ToUpper(m[1]))
+			}
+			bad := ""
+			if strings.Contains(sel.Sel.Name, "Retryable") {
+				for _, c := range cmds {
+					if nonIdem[c] {
+						bad = "retryable script contains the non-idempotent command " + c
+					}
+				}
+			}
+			if strings.Contains(sel.Sel.Name, "ReadOnly") {
+				for _, c := range cmds {
+					if !readOnly[c] {
+						bad = "read-only script calls " + c
+					}
+				}
+			}
+			r.Ob(rule, nil, "script-constructor:"+sel.Sel.Name+":"+types.ExprString(ce.Args[0]), ce.Pos(), bad == "", "a script re-sent automatically after a lost connection must be idempotent and a read-only script must not write (commands: "+strings.Join(dedupSorted(cmds), ",")+"); "+bad)
+			return true
+		})
+	}
+	return n
+}
+
+func dedupSorted(s []string) []string {
+	t := append([]string{}, s...)
+	sort.Strings(t)
+	return dedup(t)
 }
